@@ -54,3 +54,52 @@ package idxfile
 //gvc:  ensures hit: found ==> k >= 0 && 0 <= pos && pos < n && spec_bytes_cmp(arr(h.hash), arr(names), off(names) + pos * sz, sz) == 0
 //gvc:  ensures miss: !found ==> pos == 0 && (k == -1 || k >= len(idx.Names) || forall(i, 0, n, spec_bytes_cmp(arr(h.hash), arr(names), off(names) + i * sz, sz) != 0))
 //gvc:end
+
+// ---- LazyIndex: the same view as the mmap scanner, read through ReadAt.
+//gvc:pred wf_lazy(s) = (s.hashSize == 20 || s.hashSize == 32) && 0 <= s.count && s.count <= 0xffffffff && 0 <= s.count64 && s.count64 <= s.count && s.namesStart == 8 + 1024 && s.crcStart == s.namesStart + s.count * s.hashSize && s.off32Start == s.crcStart + s.count * 4 && s.off64Start == s.off32Start + s.count * 4
+
+// offset: entry pos of the 32-bit table; MSB set means index into the 64-bit
+// table, accepted iff it is below the number of 64-bit entries.
+//gvc:func (*LazyIndex).offset
+//gvc:  props C10 C53
+//gvc:  theory int
+//gvc:  results off err
+//gvc:  requires wf: wf_lazy(s)
+//gvc:  requires pos: 0 <= pos && pos < s.count
+//gvc:  requires idx: idx != nil
+//gvc:  let o32 = idx.#data[s.off32Start + pos * 4] * 16777216 + idx.#data[s.off32Start + pos * 4 + 1] * 65536 + idx.#data[s.off32Start + pos * 4 + 2] * 256 + idx.#data[s.off32Start + pos * 4 + 3]
+//gvc:  ensures small: err == nil && o32 < 0x80000000 ==> off == o32
+//gvc:  ensures large: err == nil && o32 >= 0x80000000 ==> o32 - 0x80000000 < s.count64
+//gvc:  ensures reject: o32 >= 0x80000000 && o32 - 0x80000000 >= s.count64 ==> err != nil
+//gvc:end
+
+//gvc:func (*LazyIndex).crc32
+//gvc:  props C10 C53
+//gvc:  theory int
+//gvc:  results crc err
+//gvc:  requires wf: wf_lazy(s)
+//gvc:  requires pos: 0 <= pos && pos < s.count
+//gvc:  requires idx: idx != nil
+//gvc:  ensures val: err == nil ==> crc == idx.#data[s.crcStart + pos * 4] * 16777216 + idx.#data[s.crcStart + pos * 4 + 1] * 65536 + idx.#data[s.crcStart + pos * 4 + 2] * 256 + idx.#data[s.crcStart + pos * 4 + 3]
+//gvc:end
+
+// count64bitOffsets scans the whole 32-bit table exactly once, chunk by chunk:
+// every ReadAt starts at the first entry not yet scanned and covers whole
+// entries; the loop terminates; the result is at most the number of entries.
+//gvc:func (*LazyIndex).count64bitOffsets
+//gvc:  props C10 C53
+//gvc:  theory int
+//gvc:  opt coarse
+//gvc:  opt frame args
+//gvc:  opt safety
+//gvc:  results n64 err
+//gvc:  requires shape: 0 <= s.count && s.count <= 0xffffffff && 0 <= s.off32Start && s.off32Start <= 0x1000000000000
+//gvc:  requires idx: idx != nil
+//gvc:  loop 1 invariant scanned: 0 <= remaining && remaining <= s.count && pos == s.off32Start + 4 * (s.count - remaining) && len(buf) >= 16 && len(buf) % 4 == 0
+//gvc:  loop 1 invariant counted: 0 <= n && n <= s.count - remaining
+//gvc:  loop 1 decreases remaining
+//gvc:  loop 2 invariant inner: 0 <= i && i <= chunk && i % 4 == 0 && chunk % 4 == 0 && chunk <= len(buf) && n <= s.count - remaining + i / 4 && 0 <= n
+//gvc:  loop 2 decreases chunk - i
+//gvc:  sink ReadAt requires next: arg1 == s.off32Start + 4 * (s.count - remaining) && len(arg0) == min(remaining * 4, len(buf))
+//gvc:  ensures bound: err == nil ==> 0 <= n64 && n64 <= s.count
+//gvc:end
